@@ -47,8 +47,8 @@ PROPS = {
         "required_classes": ["mode:all-pairs", "mode:random", "storage:heap", "storage:inline", "N:1", "N:2", "N:4", "N:8", "N:64", "align:8", "align:16", "align:32", "align:64"] + ["op:" + o for o in _SV_OPS],
         "assumptions": _A,
         "runs": {
-            "quick": [{"config": "plain", "shards": 16, "args": {"n": 200}}, {"config": "asan", "shards": 16, "args": {"n": 40}}],
-            "thorough": [{"config": "plain", "shards": 16, "seeds": 2, "args": {"n": 2000}}, {"config": "asan", "shards": 16, "args": {"n": 300}}],
+            "quick": [{"config": "plain", "shards": 16, "args": {"n": 200}}, {"config": "asan", "shards": 16, "args": {"n": 40, "aliasstride": 12}}],
+            "thorough": [{"config": "plain", "shards": 16, "seeds": 2, "args": {"n": 2000}}, {"config": "asan", "shards": 16, "args": {"n": 300, "aliasstride": 4}}],
         },
     },
     "C39": {
@@ -62,7 +62,7 @@ PROPS = {
                              "finish:invoke", "finish:cleanupNotRun", "chain:0", "chain:5", "align:1", "align:64", "align:128", "align:256"],
         "assumptions": ["every OnceFunction is invoked or cleaned up exactly once by the harness (documented contract)"],
         "runs": {
-            "quick": [{"config": "plain", "shards": 16, "args": {"n": 40}}, {"config": "asan", "shards": 16, "args": {"n": 6}}, {"config": "asan-nosba", "shards": 16, "args": {"n": 6}}],
+            "quick": [{"config": "plain", "shards": 16, "args": {"n": 16}}, {"config": "asan", "shards": 16, "args": {"n": 3}}, {"config": "asan-nosba", "shards": 16, "args": {"n": 3}}],
             "thorough": [{"config": "plain", "shards": 16, "seeds": 2, "args": {"n": 400}}, {"config": "asan", "shards": 16, "args": {"n": 60}}, {"config": "asan-nosba", "shards": 16, "args": {"n": 60}}],
         },
     },
@@ -73,7 +73,9 @@ PROPS = {
         "level_note": "After a move std::optional keeps the source engaged (moved-from value) while OpResult disengages it; that difference is not flagged (the reference follows what the source reports), only the lifetime balance and the destination are checked.",
         "design_ref": "DESIGN.md §4 C40",
         "rule": "evaluation = one program; non-trivial = at least two operations completed including a mutating one",
-        "required_classes": ["all-pairs", "random", "align8", "align64"] + ["op:" + o for o in _OR_OPS],
+        # op classes count completed operations; assign_value / assign_value_rv never complete on the current tree (they
+        # always hit the known move-lifetime defect, whose KNOWN-FINDING keys prove that they ran), so they are not required
+        "required_classes": ["all-pairs", "random", "align8", "align64"] + ["op:" + o for o in _OR_OPS if not o.startswith("assign_value")],
         "assumptions": _A,
         "runs": {
             "quick": [{"config": "plain", "shards": 16, "args": {"n": 4000}}, {"config": "asan", "shards": 16, "args": {"n": 800}}],
